@@ -15,7 +15,7 @@ var CSSValues = map[string][]string{
 	"position":              {"static", "relative", "absolute", "fixed", "running(hdr)", "sticky"},
 	"float":                 {"left", "right", "none", "footnote"},
 	"clear":                 {"left", "right", "both", "none"},
-	"width":                 {"auto", "0", "1px", "50px", "120px", "50%", "100%", "150%", "10em", "-5px", "1e9px", "min-content", "max-content", "fit-content", "calc(100% - 10px)"},
+	"width":                 {"auto", "0", "1px", "50px", "120px", "50%", "100%", "150%", "10em", "-5px", "3e5px", "min-content", "max-content", "fit-content", "calc(100% - 10px)"},
 	"height":                {"auto", "0", "1px", "30px", "200px", "50%", "100%", "2000px"},
 	"min-width":             {"0", "10px", "50%", "200px", "auto"},
 	"max-width":             {"none", "0", "10px", "50%", "200px"},
